@@ -119,7 +119,7 @@ def check_reach(ctx, F, err_fns):
             ctx.violate("err.reach", f"{name}|nocaller", f"error function {name} is never called outside the error printer: its rule is not enforced anywhere")
         elif not live:
             ctx.violate("err.reach", f"{name}|dead", f"error function {name} is only called from code that main cannot reach ({callers[:3]})")
-    ctx.rule("err.reach", n, floor=27, note=f"call sites of error functions; {len(seen)} bodies reachable from main")
+    ctx.rule("err.reach", n, floor=22, note=f"call sites of error functions; {len(seen)} bodies reachable from main")
 
 
 def world_versions():
